@@ -134,3 +134,191 @@ def sweep(prop: str, star_only: bool = False, cap: int = 0, workers: int = 14, r
         for r in ex.map(run_one, jobs, chunksize=2 if len(jobs) < 60 else 4):
             res.append(r)
     return res
+
+
+# ---------------------------------------------------------------------------------------------------------------------
+# behaviour-preserving rewrites of statements (applied to every applicable site of one function at once)
+
+class _SwapCompare(ast.NodeTransformer):
+    """a == b -> b == a (also !=, is, is not); a < b -> b > a"""
+    MIR = {ast.Lt: ast.Gt, ast.Gt: ast.Lt, ast.LtE: ast.GtE, ast.GtE: ast.LtE}
+
+    def visit_Compare(self, n: ast.Compare):
+        self.generic_visit(n)
+        if len(n.ops) != 1:
+            return n
+        op = n.ops[0]
+        if isinstance(op, (ast.Eq, ast.NotEq, ast.Is, ast.IsNot)):
+            if isinstance(n.comparators[0], ast.Constant) and n.comparators[0].value is None:
+                return n       # `None is x` is unidiomatic: nobody writes it
+            return ast.Compare(left=n.comparators[0], ops=[op], comparators=[n.left])
+        if type(op) in self.MIR:
+            return ast.Compare(left=n.comparators[0], ops=[self.MIR[type(op)]()], comparators=[n.left])
+        return n
+
+
+class _InvertIf(ast.NodeTransformer):
+    """if c: A else: B  ->  if not c: B else: A   (plain two-branch ifs only, no elif chains)"""
+    def visit_If(self, n: ast.If):
+        self.generic_visit(n)
+        if not n.orelse or (len(n.orelse) == 1 and isinstance(n.orelse[0], ast.If)):
+            return n
+        if len(n.body) == 1 and isinstance(n.body[0], ast.If):
+            return n
+        t = n.test
+        if isinstance(t, ast.UnaryOp) and isinstance(t.op, ast.Not):
+            nt = t.operand
+        elif isinstance(t, ast.Compare) and len(t.ops) == 1 and type(t.ops[0]) in _NEG:
+            nt = ast.Compare(left=t.left, ops=[_NEG[type(t.ops[0])]()], comparators=t.comparators)
+        else:
+            nt = ast.UnaryOp(op=ast.Not(), operand=t)
+        return ast.If(test=nt, body=n.orelse, orelse=n.body)
+
+
+_NEG = {ast.Eq: ast.NotEq, ast.NotEq: ast.Eq, ast.Is: ast.IsNot, ast.IsNot: ast.Is, ast.In: ast.NotIn, ast.NotIn: ast.In}
+
+
+class _SplitAnd(ast.NodeTransformer):
+    """if a and b: S   ->   if a: if b: S      (no else branch)"""
+    def visit_If(self, n: ast.If):
+        self.generic_visit(n)
+        if n.orelse or not (isinstance(n.test, ast.BoolOp) and isinstance(n.test.op, ast.And)):
+            return n
+        vals = n.test.values
+        inner = ast.If(test=vals[-1] if len(vals) == 2 else ast.BoolOp(op=ast.And(), values=vals[1:]), body=n.body, orelse=[])
+        return ast.If(test=vals[0], body=[inner], orelse=[])
+
+
+class _NoOp(ast.NodeTransformer):
+    """a logging call at the start of the function and of every loop body"""
+    def _stmt(self):
+        return ast.parse("logger.debug('trace')").body[0]
+
+    def visit_For(self, n):
+        self.generic_visit(n)
+        n.body = [self._stmt()] + n.body
+        return n
+
+    visit_While = visit_For
+
+
+class _Annotate(ast.NodeTransformer):
+    """x = v  ->  x: Any = v   (single plain-name targets)"""
+    def visit_Assign(self, n: ast.Assign):
+        if len(n.targets) == 1 and isinstance(n.targets[0], ast.Name):
+            return ast.AnnAssign(target=n.targets[0], annotation=ast.Name(id='Any', ctx=ast.Load()), value=n.value, simple=1)
+        return n
+
+
+class _Cast(ast.NodeTransformer):
+    """x = v  ->  x = cast(Any, v)   (single plain-name targets whose value is a call, attribute or subscript)"""
+    def visit_Assign(self, n: ast.Assign):
+        if len(n.targets) == 1 and isinstance(n.targets[0], ast.Name) and isinstance(n.value, (ast.Call, ast.Attribute, ast.Subscript)) \
+                and not (isinstance(n.value, ast.Call) and ast.unparse(n.value.func) == 'cast'):
+            n.value = ast.Call(func=ast.Name(id='cast', ctx=ast.Load()), args=[ast.Name(id='Any', ctx=ast.Load()), n.value], keywords=[])
+        return n
+
+
+class _Assert(ast.NodeTransformer):
+    """an `assert` at the start of every loop body"""
+    def _stmt(self):
+        return ast.parse("assert self is not None").body[0]
+
+    def visit_For(self, n):
+        self.generic_visit(n)
+        n.body = [self._stmt()] + n.body
+        return n
+
+    visit_While = visit_For
+
+
+class _GuardClause(ast.NodeTransformer):
+    """for …: …; if c: S      ->      for …: …; if not c: continue; S     (the if is the last statement of the loop body, no else)"""
+    def visit_For(self, n):
+        self.generic_visit(n)
+        if n.body and isinstance(n.body[-1], ast.If) and not n.body[-1].orelse and not n.orelse:
+            last = n.body[-1]
+            t = last.test
+            if isinstance(t, ast.UnaryOp) and isinstance(t.op, ast.Not):
+                nt = t.operand
+            elif isinstance(t, ast.Compare) and len(t.ops) == 1 and type(t.ops[0]) in _NEG:
+                nt = ast.Compare(left=t.left, ops=[_NEG[type(t.ops[0])]()], comparators=t.comparators)
+            else:
+                nt = ast.UnaryOp(op=ast.Not(), operand=t)
+            n.body = n.body[:-1] + [ast.If(test=nt, body=[ast.Continue()], orelse=[])] + last.body
+        return n
+
+    visit_While = visit_For
+
+
+REWRITES = {'swap-compare': _SwapCompare, 'invert-if': _InvertIf, 'split-and': _SplitAnd, 'noop-logging': _NoOp,
+            'annotate-assign': _Annotate, 'cast-value': _Cast, 'insert-assert': _Assert, 'guard-clause': _GuardClause}
+
+
+def rewrite(src: str, fnode, kind: str) -> str:
+    import copy
+    new = copy.deepcopy(fnode)
+    body = new.body
+    doc = body[:1] if body and isinstance(body[0], ast.Expr) and isinstance(body[0].value, ast.Constant) else []
+    tr = REWRITES[kind]()
+    new.body = doc + [tr.visit(st) for st in body[len(doc):]]
+    if kind == 'noop-logging':
+        new.body = doc + [ast.parse("logger.debug('trace')").body[0]] + new.body[len(doc):]
+    ast.fix_missing_locations(new)
+    code = ast.unparse(new)
+    if code == ast.unparse(fnode):
+        return src
+    first = min([fnode.lineno] + [d.lineno for d in fnode.decorator_list])
+    lines = src.split('\n')
+    indent = ' ' * fnode.col_offset
+    block = [indent + ln if ln else ln for ln in code.split('\n')]
+    return '\n'.join(lines[:first - 1] + block + lines[fnode.end_lineno:])
+
+
+def run_rewrite(args):
+    prop, rel, qual, kind = args[:4]
+    repo = args[4] if len(args) > 4 else None
+    mod = importlib.import_module(f'xsa.rules.{prop.lower()}')
+    os.environ['XSA_NO_ROLES'] = '1'
+    idx0 = Index(repo) if repo else Index()
+    os.environ.pop('XSA_NO_ROLES')
+    f = idx0.functions[qual]
+    new = rewrite(f.module.source, f.node, kind)
+    if new == f.module.source:
+        return (qual, kind, 'skip', '')
+    try:
+        ast.parse(new)
+    except SyntaxError as e:
+        return (qual, kind, 'skip', f'syntax {e}')
+    try:
+        idx = Index(repo, overlay={rel: new}) if repo else Index(overlay={rel: new})
+        ctx, viol, known = collect(prop, list(mod.RULES), 'quick', idx)
+    except AnalysisError as e:
+        return (qual, kind, 'error', str(e)[:200])
+    except Exception as e:
+        return (qual, kind, 'error', f'internal {type(e).__name__}: {e}'[:200])
+    if viol:
+        return (qual, kind, 'alarm', f'{viol[0].rule} {viol[0].instance[:100]} :: {viol[0].detail[:80]}')
+    return (qual, kind, 'ok', '')
+
+
+def sweep_rewrites(prop: str, kinds=None, workers: int = 14, repo: str = '', cap: int = 0) -> list:
+    mod = importlib.import_module(f'xsa.rules.{prop.lower()}')
+    idx = Index(repo) if repo else Index()
+    ctx, viol, known = collect(prop, list(mod.RULES), 'quick', idx)
+    jobs = []
+    for q in sorted(ctx.functions_analysed):
+        f = idx.functions.get(q)
+        if f is None or isinstance(f.node, ast.Lambda):
+            continue
+        for k in (kinds or REWRITES):
+            jobs.append((prop, f.module.relpath, q, k) + ((repo,) if repo else ()))
+    if cap and len(jobs) > cap:
+        step = len(jobs) / cap
+        jobs = [jobs[int(i * step)] for i in range(cap)]
+    res = []
+    if jobs:
+        with ProcessPoolExecutor(max_workers=min(workers, len(jobs))) as ex:
+            for r in ex.map(run_rewrite, jobs, chunksize=2):
+                res.append(r)
+    return res
